@@ -13,6 +13,7 @@ use program_structure::ir::{Statement, VariableName};
 #[derive(Clone, Default)]
 pub struct ConstraintAnalysis {
     constraint_map: HashMap<VariableName, HashSet<VariableName>>,
+    constrained: HashSet<VariableName>,
     declarations: HashMap<VariableName, VariableUse>,
     definitions: HashMap<VariableName, VariableUse>,
 }
@@ -88,10 +89,15 @@ impl ConstraintAnalysis {
         self.multi_step_constraint(source).iter().any(|sink| sinks.contains(sink))
     }
 
-    /// Returns the set of variables occurring in a constraint together with at
-    /// least one other variable.
+    /// Returns the set of variables occurring in a constraint (also if the
+    /// variable is the only variable of the constraint).
     pub fn constrained_variables(&self) -> HashSet<VariableName> {
-        self.constraint_map.keys().cloned().collect::<HashSet<_>>()
+        self.constrained.clone()
+    }
+
+    /// Returns true if the variable occurs in a constraint.
+    pub fn is_constrained(&self, var: &VariableName) -> bool {
+        self.constrained.contains(var)
     }
 }
 
@@ -117,6 +123,7 @@ pub fn run_constraint_analysis(cfg: &Cfg) -> ConstraintAnalysis {
                 }
                 ConstraintEquality { .. } | Substitution { op: AssignConstraintSignal, .. } => {
                     for source in stmt.variables_used() {
+                        result.constrained.insert(source.name().clone());
                         for sink in stmt.variables_used() {
                             if source.name() != sink.name() {
                                 trace!(
